@@ -433,3 +433,38 @@ func idxRole(v ssa.Value) string {
 	}
 	return "var"
 }
+
+// runC20Reentrant: the two emitters call each other recursively for nested values, so the state
+// that decides separators (the "something was already emitted" flag, counters) has to live in
+// locals of each activation. A field of the shared dumper object written by an emitter is
+// overwritten by the nested call and read again by the outer one: a nested struct with no
+// exported field then swallows the comma before the next member.
+func runC20Reentrant(c *Ctx) {
+	p := c.P
+	c.Rule("C20-REENTRANT", "the recursive emitters keep their separator state in locals: no field of the dumper object is assigned by an emitter", 1)
+	hd := p.Method("valid", "dumpStruct", "HandleDumpStruct")
+	kv := p.Method("valid", "dumpStruct", "loopHandleKV")
+	if hd == nil || kv == nil {
+		return
+	}
+	var bad []string
+	n := 0
+	for _, fn := range []*ssa.Function{hd, kv} {
+		recv := fn.Params[0]
+		for _, b := range fn.Blocks {
+			for _, ins := range b.Instrs {
+				st, ok := ins.(*ssa.Store)
+				if !ok {
+					continue
+				}
+				n++
+				fa, ok := st.Addr.(*ssa.FieldAddr)
+				if ok && fa.X == recv {
+					bad = append(bad, fmt.Sprintf("%s assigns the dumper's field %s at %s: the recursive call for a nested value overwrites it before the outer activation reads it again", fnName(fn), fieldAddrName(fa), p.Pos(st.Pos())))
+				}
+			}
+		}
+	}
+	c.Sites += n
+	c.Check(len(bad) == 0, "C20-REENTRANT", "valid.dumpStruct", "no-field-state", hd.Pos(), fmt.Sprintf("%d stores in the emitters, none to a field of the shared object", n), uniqJoin(bad, 3))
+}
